@@ -21,11 +21,14 @@ FIELDS = [
     ("c", "Union[int, None]", "None", "'zz'", False),
     ("d", "str = Field(max_length=2, required=False)", "'ab'", "'abc'", False),
     ("e", "Dict[str, int]", "{'k': 1}", "{'k': 'v'}", True),
+    ("f", "Tuple[int, str]", "(1, 'a')", "('x', 1)", False),
+    ("g", "Dict[int, int]", "{1: 1}", "{'abc': 1}", False),
+    ("h", "List[Dict[int, List[int]]]", "[{1: [2]}]", "[{1: [2]}, {2: ['q']}]", False),
 ]
 
 
 def class_source(names, addition, dfs):
-    lines = ["from utype import Schema, Field, Options", "from typing import List, Dict, Union, Optional", "",
+    lines = ["from utype import Schema, Field, Options", "from typing import List, Dict, Union, Optional, Tuple", "",
              "class T(Schema):", "    __options__ = Options(addition=%r, data_first_search=%r)" % (addition, dfs)]
     for n, ann, good, bad, req in FIELDS:
         if n not in names:
@@ -52,7 +55,7 @@ def func_source(names):
             params.append("%s: %s = None" % (n, ann.replace("Union[int, None]", "Optional[int]")))
     # required first
     params.sort(key=lambda p: "=" in p)
-    return ("import utype\nfrom utype import Field, Options\nfrom typing import List, Dict, Union, Optional\n\n"
+    return ("import utype\nfrom utype import Field, Options\nfrom typing import List, Dict, Union, Optional, Tuple\n\n"
             "def T(%s):\n    return [%s]\n") % (", ".join(params), ", ".join(n for n, *_ in FIELDS if n in names))
 
 
@@ -96,9 +99,9 @@ def main():
         ck.note("model-level counterexample: %s" % mc.invariant_violated)
         ck.count("model_only_counterexamples")
     records, n = [], 0
-    subsets = [s for k in (2, 3, 5) for s in itertools.combinations("abcde", k)]
+    subsets = [s for k in (2, 3, 5) for s in itertools.combinations("abcdefgh", k)]
     if not thorough:
-        subsets = [("a", "b", "c"), ("a", "d", "e"), ("b", "c", "d", "e")[:3], tuple("abcde"), ("a", "e")]
+        subsets = [("a", "b", "c"), ("a", "d", "e"), ("b", "c", "d"), tuple("abcde"), ("a", "e"), ("a", "f", "g"), ("g", "h"), ("c", "g", "h", "f")]
     for kind in ("class", "class-dfs", "func"):
         for names in subsets:
             for addition in ((False, None) if kind != "func" else (None,)):
